@@ -302,7 +302,7 @@ def _run(ctx):
         check_tree(ctx, si, t, L.join_tokens(rng, L.tokens_of(t)), batch, 'chain3')
     # 2b. every name with every exponent, every number with a name
     for a in ALPHA12:
-        for x in L.EXPS:
+        for x in L.EXPS + L.EXPS_NEAR:
             for par in (False, True):
                 t = ('pow', a, x, par)
                 check_tree(ctx, si, t, L.join_tokens(rng, L.tokens_of(t)), batch, 'pow')
